@@ -528,8 +528,13 @@ inductive Written (H S : Type)
   | stream (s : S) (payload : Stream)
 deriving DecidableEq, Repr
 
+/-- What a text-mode file holds after the characters `s` were written to it: `s` encoded — except that
+the incremental encoder behind a text file emits nothing, not even the byte-order mark `"".encode()`
+yields for UTF-16, until it is handed a character. -/
+def textFile (c : Codec) (s : Str) : Bytes := if s.isEmpty then [] else c.enc s
+
 /-- `BaseWriter.write_file(bib_data, filename)`.  A text-mode handle encodes what is written to it
-with the encoding it was opened with. -/
+with the encoding it was opened with (`textFile`). -/
 def writeFile (k : WriterKind) (core : WriterCore Db E) (c : Codec) (encName : Str)
     (env : Env H) (d : Db) (file : FileArg S) : List Event × Except (WErr E) (Written H S) :=
   let u := k.unicodeIO
@@ -545,7 +550,7 @@ def writeFile (k : WriterKind) (core : WriterCore Db E) (c : Codec) (encName : S
       | .passthrough s => (o.1, .ok (.stream s payload))
       | .handle h =>
         match payload with
-        | .text s => (o.1, .ok (.file h (c.enc s)))
+        | .text s => (o.1, .ok (.file h (textFile c s)))
         | .binary b => (o.1, .ok (.file h b))
 
 /-! ## §5  pybtex/database/__init__.py: choosing the class, then calling it -/
